@@ -211,6 +211,48 @@ class Ctx:
             self.cov["reference"][k] = self.cov["reference"].get(k, 0) + v
         return failures
 
+    def rc11_check(self, programs, impl, lower=True, upper=True, races=False):
+        """Compare explored outcomes with RC11 (Spec/RC11.lean): every outcome of the `strong`
+        instance must be explored (lower bound, C02), every explored outcome must be an outcome of
+        the `doc` instance (upper bound, C03).  With races=True only the verdicts are compared
+        (C04): a causality panic iff some consistent execution has a data race."""
+        L = lvlib.run_rc11(programs, "strong") if lower else {}
+        U = lvlib.run_rc11(programs, "doc") if upper else {}
+        failures = []
+        stats = {"compared": 0, "skipped_for_size": 0, "graphs_checked": 0}
+        for p in programs:
+            its, done = lvlib.iterations(impl.get(p, []))
+            lo, ls, lg = L.get(p, (set(), "ok", 0)) if lower else (set(), "ok", 0)
+            uo, us, ug = U.get(p, (set(), "ok", 0)) if upper else (set(), "ok", 0)
+            stats["graphs_checked"] += lg + ug
+            if ls != "ok" or us != "ok" or not done or done[1] == "capped":
+                stats["skipped_for_size"] += 1
+                continue
+            if done[0] == "?":
+                failures.append((p, "abort", done[1]))
+                continue
+            stats["compared"] += 1
+            explored = set(lvlib.outcome_str_rc11(it) for it in its)
+            if races:
+                racy_impl = done[1].startswith("causality")
+                if upper and racy_impl and "causality" not in uo:
+                    failures.append((p, "forbidden", "causality"))
+                if lower and "causality" in lo and not racy_impl and done[1] == "ok":
+                    failures.append((p, "missed_failure", "causality"))
+                continue
+            if upper:
+                bad = sorted(explored - uo)
+                if bad:
+                    failures.append((p, "forbidden", bad[0]))
+            if lower and done[1] == "ok":
+                miss = sorted(lo - explored)
+                if miss:
+                    failures.append((p, "missing", miss[0]))
+        self.cov.setdefault("reference", {})
+        for k, v in stats.items():
+            self.cov["reference"][k] = self.cov["reference"].get(k, 0) + v
+        return failures
+
     def attribute(self, failures, differing, extra=None):
         """known-finding protocol: a failure is attributed to a listed finding only on a program on
         which implementation and twin agree and whose shape matches the finding's signature"""
@@ -234,6 +276,40 @@ class Ctx:
                                     **(extra or {})}, found_input=True, program=p)
         return unlisted
 
+    def std_flow(self, programs, cap, view, failures_fn, rule, nontrivial_fn=None, sample_fn=None):
+        """the common shape of a check: correspondence, oracle, attribution, witnesses, coverage"""
+        self.cov["rule"] = rule
+        impl, twin, dis = self.correspond(programs, cap, view=view)
+        differing = {d["program"] for d in dis}
+        failures = failures_fn(impl)
+        unlisted = self.attribute(failures, differing)
+        nontrivial = 0
+        dist = {}
+        for p in programs:
+            its, done = lvlib.iterations(impl.get(p, []))
+            self.cov["evaluations"] += len(its)
+            self.cov["traces_validated_against_impl"] += len(its)
+            k = done[1] if done else "none"
+            dist[k] = dist.get(k, 0) + 1
+            if (nontrivial_fn(p, its, done) if nontrivial_fn else len(its) > 1):
+                nontrivial += 1
+            if len(its) > 1 and len(self.cov["samples"]) < 4:
+                self.sample(sample_fn(p, its) if sample_fn else
+                            {"program": p, "iterations": len(its),
+                             "outcomes": sorted(set(lvlib.outcome_str(i) for i in its))[:3]})
+        if dis and not unlisted:
+            thms = [t["name"] for t in self.cov["theorems"]]
+            for d in dis[:3]:
+                self.violation("correspondence", {"disagreement": d, "rests_on_it": thms},
+                               found_input=False, program=d["program"])
+        self.cov["programs"] = len(programs)
+        self.cov["distinct_nontrivial"] = nontrivial
+        self.cov["distribution"] = {"result": dist, "oracle_failures": len(failures), "disagreements": len(dis)}
+        return impl, failures
+
+    def theorems(self):
+        return json.load(open(os.path.join(lvlib.VERIF, "checks", "theorems.json")))[self.pid]
+
     def witness_check(self, max_iters=20000, max_states=400000):
         """re-run the witness of every listed finding of this property; print KNOWN-FINDING iff it
         still fails on the implementation"""
@@ -243,12 +319,19 @@ class Ctx:
             return
         progs = list(dict.fromkeys(k["witness"] for k in ws))
         impl = lvlib.run_impl(progs, max_iters=max_iters)
-        sc = lvlib.run_sc(progs, max_states)
+        sc = lvlib.run_sc([k["witness"] for k in ws if k.get("oracle", "sc") == "sc"], max_states)
+        rcs = lvlib.run_rc11([k["witness"] for k in ws if k.get("oracle") == "rc11-strong"], "strong")
+        rcd = lvlib.run_rc11([k["witness"] for k in ws if k.get("oracle") == "rc11-doc"], "doc")
         for k in ws:
             p = k["witness"]
             its, done = lvlib.iterations(impl.get(p, []))
-            outs, _capped, _ = sc.get(p, (set(), True, 0))
-            explored = set(lvlib.outcome_str(it) for it in its)
+            orc = k.get("oracle", "sc")
+            if orc == "sc":
+                outs, _capped, _ = sc.get(p, (set(), True, 0))
+                explored = set(lvlib.outcome_str(it) for it in its)
+            else:
+                outs = (rcs if orc == "rc11-strong" else rcd).get(p, (set(), "abort", 0))[0]
+                explored = set(lvlib.outcome_str_rc11(it) for it in its)
             kind, o = k["kind"], k.get("outcome", "")
             if kind == "missing":
                 still = done and done[1] == "ok" and o in outs and o not in explored
